@@ -47,6 +47,10 @@ def c04(tier):
                                  "kind": "spec", "detail": r.tail[-1500:], "sig": {"suite": "spec"}})
         # and the real simulation reproduces that single behaviour
         c_net.run_scn(v, wd, "C04", scn, mc=False)
+    # the same statement over random mixed scenarios: every scenario has exactly one complete behaviour in the interpreter
+    # (checked inside run_random) and both event-set backends reproduce it
+    c_net.run_random(v, wd, "C04", c_net.Scn("mixQ", topo="T2", pol="PolQueue", tx="TxLin", lim="Lim128", stack="Stack012", stages="Stages212",
+                                             catch="CatchB", max_inv=1000, max_t=14), 200 if tier == "quick" else 2000, "mixQ")
     nk, ns = (12, 3) if tier == "quick" else (60, 6)
     jobs = [(k, vlib.seed() * 100 + s) for k in range(1, nk + 1) for s in range(1, ns + 1)]
     with ThreadPoolExecutor(max_workers=vlib.NCPU) as ex:
